@@ -398,6 +398,8 @@ impl<const BITS: usize, const LIMBS: usize> TryFrom<u64> for Uint<BITS, LIMBS> {
         if LIMBS <= 1 {
             if value > Self::MASK {
                 // Construct wrapped value
+                #[cfg(feature = "recmo_uint_verif")]
+                crate::verif_hooks::hit(70);
                 let mut limbs = [0; LIMBS];
                 if LIMBS == 1 {
                     limbs[0] = value & Self::MASK;
@@ -423,9 +425,13 @@ impl<const BITS: usize, const LIMBS: usize> TryFrom<u128> for Uint<BITS, LIMBS> 
     #[allow(clippy::cast_possible_truncation)]
     fn try_from(value: u128) -> Result<Self, Self::Error> {
         if value <= u64::MAX as u128 {
+            #[cfg(feature = "recmo_uint_verif")]
+            crate::verif_hooks::hit(72);
             return Self::try_from(value as u64);
         }
         if Self::LIMBS < 2 {
+            #[cfg(feature = "recmo_uint_verif")]
+            crate::verif_hooks::hit(73);
             return Self::try_from(value as u64)
                 .and_then(|n| Err(ToUintError::ValueTooLarge(BITS, n)));
         }
@@ -433,6 +439,8 @@ impl<const BITS: usize, const LIMBS: usize> TryFrom<u128> for Uint<BITS, LIMBS> 
         limbs[0] = value as u64;
         limbs[1] = (value >> 64) as u64;
         if Self::LIMBS == 2 && limbs[1] > Self::MASK {
+            #[cfg(feature = "recmo_uint_verif")]
+            crate::verif_hooks::hit(74);
             limbs[1] &= Self::MASK;
             Err(ToUintError::ValueTooLarge(BITS, Self::from_limbs(limbs)))
         } else {
@@ -471,6 +479,8 @@ macro_rules! impl_from_signed_int {
             #[inline]
             fn try_from(value: $int) -> Result<Self, Self::Error> {
                 if value.is_negative() {
+                    #[cfg(feature = "recmo_uint_verif")]
+                    crate::verif_hooks::hit(78);
                     Err(match Self::try_from(value as $uint) {
                         Ok(n) | Err(ToUintError::ValueTooLarge(_, n)) => {
                             ToUintError::ValueNegative(BITS, n)
@@ -628,6 +638,8 @@ macro_rules! to_int {
                     return Ok(0);
                 }
                 if value.bit_len() > CAPACITY {
+                    #[cfg(feature = "recmo_uint_verif")]
+                    crate::verif_hooks::hit(79);
                     return Err(Self::Error::Overflow(
                         BITS,
                         value.limbs[0] as Self,
